@@ -77,14 +77,30 @@ def joinLen : Name → Nat
   | [c] => c.length
   | c :: cs => c.length + 1 + joinLen cs
 
+/-- the lookup of one `/`-prefix inside `_find_tag_subfunction` (after fix bb9eaaf): a prefix that ends
+in the placeholder (`parent_name.endswith("/#")`) is never an intermediate node — what follows the tag
+is its value, as written. -/
+def walkGet (tbl : Table) (p : Name) : Option Nat :=
+  if p.getLast? == some ['#'] && p.length ≥ 2 then none else tbl.get p
+
 /-- `_find_tag_subfunction`: walk the `/`-prefixes left to right; `k` components are known so far
 (`cur` = their entry).  Returns the deepest known entry and the number of components consumed. -/
 def walk (tbl : Table) (w : Name) : Nat → Option Nat → Nat → Option (Nat × Nat)
   | 0, cur, k => cur.map (·, k)
   | fuel + 1, cur, k =>
     if k ≥ w.length then cur.map (·, k)
-    else match tbl.get (w.take (k + 1)) with
+    else match walkGet tbl (w.take (k + 1)) with
       | some e => walk tbl w fuel (some e) (k + 1)
+      | none => cur.map (·, k)
+
+/-- the walk before fix bb9eaaf: it stepped onto the placeholder node (`Label/#/x` resolved to `Label/#`
+with remainder `/x`).  Kept for the decided counter-example in `Props/C03`. -/
+def walkLegacy (tbl : Table) (w : Name) : Nat → Option Nat → Nat → Option (Nat × Nat)
+  | 0, cur, k => cur.map (·, k)
+  | fuel + 1, cur, k =>
+    if k ≥ w.length then cur.map (·, k)
+    else match tbl.get (w.take (k + 1)) with
+      | some e => walkLegacy tbl w fuel (some e) (k + 1)
       | none => cur.map (·, k)
 
 /-- `_validate_remaining_terms`: first remaining component that is itself a known tag -/
@@ -115,6 +131,25 @@ def findComps (v : Vocab) (fold : Str → Str) (comps : Name) : FindResult :=
 /-- `_find_tag_entry` on the tag text with the namespace already removed (`clean_tag`). -/
 def find (v : Vocab) (fold : Str → Str) (clean : Str) : FindResult :=
   findComps v fold (splitSlash clean)
+
+/-- `_find_tag_entry` with the walk before fix bb9eaaf -/
+def findLegacy (v : Vocab) (fold : Str → Str) (clean : Str) : FindResult :=
+  let comps := splitSlash clean
+  let w := foldName fold comps
+  match v.table.get w with
+  | some e => .found e (if w.getLast? == some ['#'] && w.length ≥ 2 then ['/', '#'] else [])
+  | none =>
+    match walkLegacy v.table w w.length none 0 with
+    | none => .noValidTag (comps.head?.getD []).length
+    | some (e, k) =>
+      let rem := comps.drop k
+      let remText : Str := if rem.isEmpty then [] else '/' :: joinSlash rem
+      match v.valueChild fold e with
+      | some ch => if rem.isEmpty then .found e [] else .found ch remText
+      | none =>
+        match badTerm v.table (joinLen (comps.take k) + 1) (w.drop k) with
+        | some (a, b, x) => .invalidParent a b x
+        | none => .found e remText
 
 /-- `HedTag._get_schema_namespace` -/
 def namespaceOf (org : Str) : Str :=
